@@ -462,11 +462,9 @@ class ModelFittingDataTree(ProblemSingleObjective):
                 weighting: np.ndarray | None = None
 
                 if self.weighting is not None:
+                    # Note: the weights have the shape of the data selected by the fit range
                     weighting = np.full(
-                        shape=(
-                            processor.detector.geometry.row,
-                            processor.detector.geometry.col,
-                        ),
+                        shape=target_data.shape,
                         fill_value=self.weighting[processor_id],
                     )
                 elif self.weighting_from_file is not None:
